@@ -21,7 +21,7 @@ RULE = (
     "the solved disjunctive graph of the real schedule must be acyclic and its longest "
     "duration-weighted source->sink path (own DP) equal the makespan; for every delay vector "
     "in {0,1}^n added on top of the same machine orders (feasible, not semi-active, built with "
-    "Schedule(instance, lists)) the path must not exceed the makespan. Case = (instance, "
+    "Schedule(instance, lists)) the path must not exceed the makespan. After a graph of another, larger instance has been built the first graph is inspected again (node ids, node attributes, live nodes). Case = (instance, "
     "builder) or (instance, history, delay vector); non-trivial = >= 2 jobs and >= 3 operations."
 )
 ASSUMPTIONS = [
@@ -79,6 +79,8 @@ def node_payload(n):
 
 def run_static(res, spec):
     check = "graph_matches_definition"
+    from job_shop_lib.graphs import NODE_ATTR
+
     ref = Ref(spec)
     inst = impl.mk_instance(spec)
     for b in _env.BUILDERS:
@@ -139,7 +141,7 @@ def run_static(res, spec):
         _env.builder(b)(other)
         try:
             ids_again = [n.node_id for n in g.nodes]
-            attr_ids = [g.graph.nodes[i]["node"].node_id for i in sorted(g.graph.nodes())]
+            attr_ids = [g.graph.nodes[i][NODE_ATTR].node_id for i in sorted(g.graph.nodes())]
             live = [n.node_id for n in g.non_removed_nodes()]
             if ids_again != list(range(len(want_nodes))) or attr_ids != sorted(g.graph.nodes()) or live != ids_again:
                 res.violation(check, "graph-disturbed-by-building-another-graph", sig=sig, node_ids=ids_again, attr_ids=attr_ids, **common)
